@@ -122,7 +122,8 @@ Theorem C04_as_circuit_matrix_own_matrix :
     fields_ok fields -> NoDup prtcl -> Forall (particle_ok fields) prtcl ->
     length G = (2 ^ length prtcl)%nat -> Forall (fun row => length row = (2 ^ length prtcl)%nat) G ->
     let nw := Z.to_nat (fsum fields) in
-    exists T, code_as_circuit_matrix s0 fields prtcl (csr_of_dense nz G) = AcmOk T /      forall r c, length r = nw -> length c = nw ->
+    exists T, code_as_circuit_matrix s0 fields prtcl (csr_of_dense nz G) = AcmOk T /\
+      forall r c, length r = nw -> length c = nw ->
         triples_entry T r c = embed nw (wires_of fields prtcl) (mxl G) r c.
 Proof.
   intros K L nz Hnz fields prtcl G F N A HG HR. cbv zeta.
